@@ -522,14 +522,18 @@ def forwarding(repo, chk):
     m = nm.module
     cs = [c for c in calls(nm) if m.dotted(c.func) == f'{MI}.mutual_info_estimator_numba']
     ratio = nm.params[3] if len(nm.params) > 3 else 'mi_stratified_sampling_ratio'
-    ok = False
-    if len(cs) == 1:
-        est = repo.func(MI, 'mutual_info_estimator_numba')
-        ba = bind_args(cs[0], est)
-        a = ba.get(est.params[2])
-        ok = a is not None and ast.unparse(a) in (f'np.float32({ratio})', ratio, f'float({ratio})')
+    ok = bool(cs)
+    est = repo.func(MI, 'mutual_info_estimator_numba')
+    forms = [expected_term(m, f'numpy.float32({ratio})'), expected_term(m, ratio), expected_term(m, f'float({ratio})')]
+    for c in cs:          # (one call, or one per value of a flag that used to be a variable)
+        a = bind_args(c, est).get(est.params[2])
+        ok = ok and a is not None and term_of(nm, a, inline=True) in forms
     chk.expect(ok, 'C04.7e', 'R6', nm.site(cs[0]) if cs else nm.site(), ast.unparse(cs[0]).replace('\n', ' ')[:200] if cs else '', 'numba_mi hands the configured ratio to the estimator', 'numba_mi must pass mi_stratified_sampling_ratio as approximation_factor')
     cf = repo.func(IE, 'conduct_feature_ranking')
     cs2 = [c for c in calls(cf) if m.dotted(c.func) == f'{IE}.numba_mi']
-    ok2 = bool(cs2) and all(len(c.args) >= 4 and ast.unparse(c.args[3]) == f'{cf.params[2]}.mi_stratified_sampling_ratio' for c in cs2)
+    ok2 = bool(cs2)
+    want2 = expected_term(m, f'{cf.params[2]}.mi_stratified_sampling_ratio')
+    for c in cs2:
+        a2 = bind_args(c, nm).get(ratio)
+        ok2 = ok2 and a2 is not None and term_of(cf, a2, inline=True) == want2
     chk.expect(ok2, 'C04.7f', 'R6', cf.site(cs2[0]) if cs2 else cf.site(), ast.unparse(cs2[0]) if cs2 else 'numba_mi(...)', '--mi_stratified_sampling_ratio reaches numba_mi', 'conduct_feature_ranking must forward args.mi_stratified_sampling_ratio to numba_mi')
